@@ -224,6 +224,16 @@ def rule_cover(ctx, M, u):
     elif kind == "keys":
         if det != scan.self_field("keys"):
             bad.append("group scan does not iterate self.keys")
+    elif kind == "zip" and det[0] == "call" and len(det[2]) == 2:
+        # `(0..N).zip(self.futures.iter())` (either order): the spelled-out enumerate() - both sides span the container
+        a, b = det[2]
+        if a[0] == "call":
+            a, b = b, a
+        rng_ok = a[0] == "agg" and a[1] == ("Range", "Range") and a[2][0] == ("const", 0) and \
+            (a[2][1] == ("sym", "N") or (a[2][1][0] == "call" and a[2][1][1][1] == "len"))
+        it_ok = b[0] == "call" and b[1][1] == "iter" and b[2] and b[2][0] == scan.self_field("futures")
+        if not (rng_ok and it_ok):
+            bad.append("zip scan is not (0..len) paired with all of self.futures")
     elif kind is None and c.idx is not None and c.idx[0] == "loopitem":
         # zip of whole-container iterators (race_ok/array)
         r = scan.loop_item_root(c.child)
